@@ -197,4 +197,11 @@ Proof.
     destruct (G (tix s) L) as (a & v & Hin). apply (IGt _ _ Hi) in Hin. lia.
   - intros i Hl. destruct (Nat.le_gt_cases (HL s) i); [right; auto | left; apply G; auto].
 Qed.
+
+(* a schedule that runs is a path of reachable states *)
+Lemma run_reach l : forall s s', Reach s -> run B reuse s l = Some s' -> Reach s'.
+Proof.
+  induction l as [|a l IH]; cbn [run]; intros s s' R H; [inversion H; subst; exact R|].
+  destruct (step s a) as [s1|] eqn:E; [|discriminate]. eapply IH; [eapply RS; eauto | exact H].
+Qed.
 End S.
